@@ -7,9 +7,11 @@ import (
 	"bufio"
 	"encoding/json"
 	"fmt"
+	"math"
 	"math/rand"
 	"os"
 	"sort"
+	"strconv"
 )
 
 // T is a term: constructor application  Name a1 .. an.  JSON form: {"Name":[a1,..,an]}.
@@ -18,6 +20,11 @@ type T struct {
 	Name string
 	Args []any
 }
+
+// Num is an integer that does not fit int64 (decimal digits); JSON form: a bare number.
+type Num string
+
+func (n Num) MarshalJSON() ([]byte, error) { return []byte(string(n)), nil }
 
 // Pair is a Coq pair (a, b); JSON form {"":[a,b]}.
 type Pair struct{ A, B any }
@@ -42,7 +49,14 @@ func Norm(a any) any {
 	case uint32:
 		return int64(v)
 	case uint64:
+		if v > math.MaxInt64 {
+			return Num(strconv.FormatUint(v, 10))
+		}
 		return int64(v)
+	case uint:
+		return Norm(uint64(v))
+	case Num:
+		return v
 	case uint8:
 		return int64(v)
 	case int64, bool, string, T, Pair:
@@ -103,7 +117,7 @@ func FromJSON(v any) any {
 	case json.Number:
 		n, err := x.Int64()
 		if err != nil {
-			panic(err)
+			return Num(x.String())
 		}
 		return n
 	case float64:
@@ -126,6 +140,21 @@ func FromJSON(v any) any {
 		}
 	}
 	panic(fmt.Sprintf("hx.FromJSON: unsupported %T", v))
+}
+
+// U64 reads an unsigned 64-bit argument (int64 or Num).
+func U64(a any) uint64 {
+	switch v := a.(type) {
+	case int64:
+		return uint64(v)
+	case Num:
+		u, err := strconv.ParseUint(string(v), 10, 64)
+		if err != nil {
+			panic(err)
+		}
+		return u
+	}
+	panic(fmt.Sprintf("hx.U64: %T", a))
 }
 
 // accessors for executors
